@@ -134,8 +134,11 @@ impl<'a, B: SddBuilder<'a>> Sw<'a, B> {
                     return Some(format!("binary node normalised for vtree position {} which is not an internal node", idx));
                 }
                 let lbl = bn.label().value_usize();
-                if self.shape.left_leaf[idx] != Some(lbl) {
-                    return Some(format!("binary node on x{} at vtree position {} whose left child is {:?}", lbl + 1, idx, self.shape.left_leaf[idx]));
+                // a binary node is the two-element decision {(x, high), (not x, low)}: its primes
+                // are the literals of `label`, which must lie under the LEFT child of the node's
+                // vtree position (the left child itself need not be a leaf)
+                if (self.shape.left_mask[idx] >> lbl) & 1 == 0 {
+                    return Some(format!("binary node on x{} at vtree position {} whose left side is {:#b}", lbl + 1, idx, self.shape.left_mask[idx]));
                 }
                 let (lo, hi) = (sdd_tt(bn.low(), n), sdd_tt(bn.high(), n));
                 let rm = self.shape.right_mask[idx];
